@@ -15,10 +15,12 @@
                                   delayHandleUnstake), fetchPostponedUnstakes
   *as the code is*, including what looks wrong: the balance side uses the int64 truncation of the
   amount while the records use the full value (harmless since `Validate` refuses amounts outside
-  int64, commit 9ac9bcb; the handlers `run…` alone still show it); the slash writes record by record without a
-  session (a failure half-way leaves the earlier writes); the postponed unstake of a slash is
-  dropped by the purge rule; a validator record is deleted at the end of block h when its record
-  *of block h-1* had no power, whatever was staked during block h.
+  int64, commit 9ac9bcb; the handlers `run…` alone still show it).  (Repaired meanwhile and modelled as repaired: a verdict charges the current stake
+  address and postpones the unstake only when the penalty was taken, ebb3d1d; the postponed
+  unstake of a slash is applied without the purge rule, acb5e5c; a record without power is deleted
+  only when the current record has no power either and the election has settled, d8b47b0; the
+  stake account of a frozen validator cannot withdraw by naming another validator, df2e1ab +
+  92417eb.)
 
   Records are decoded values (DESIGN §3.1 layer D): amounts are `Int` in whole tokens, balances
   `Int` in the smallest unit, addresses are natural numbers ordered like the address bytes.
@@ -103,6 +105,10 @@ structure St where
   bal : Addr → Int
   /-- `es__ssvk_<v>` present and `IsFrozen()` -/
   frozen : Addr → Bool
+  /-- the validators `ValidatorStore.Iterate` enumerates: `v_<addr>` is a key of the committed
+      tree and not deleted in the block cache (`State.IterateRange` does not see a record created
+      in the running block; its values are read through the cache) -/
+  iterVals : List Addr
   /-- an allegation request against v exists (`CheckRequestExists`) -/
   req : Addr → Bool
   /-- `purged_<v>`: last purge height, 0 = never -/
@@ -127,7 +133,7 @@ structure St where
 def St.empty (maturity : Int) : St :=
   { height := 0, maturity := maturity, tot := fun _ => 0, vd := fun _ _ => 0, eff := fun _ => 0,
     bnd := fun _ => 0, mat := fun _ => [], vals := fun _ => none, prev := fun _ => none,
-    bal := fun _ => 0, frozen := fun _ => false, req := fun _ => false, purge := fun _ => 0,
+    bal := fun _ => 0, frozen := fun _ => false, iterVals := [], req := fun _ => false, purge := fun _ => 0,
     delayed := fun _ _ => none, gStaked := fun _ => 0, gWithdrawn := fun _ => 0,
     gPenal := fun _ => 0, gMaturing := fun _ => 0, gUnlocked := fun _ => 0, gPaidIn := fun _ => 0,
     gPaidOut := fun _ => 0, gSched := fun _ _ => 0, gKeys := [] }
@@ -140,15 +146,13 @@ def addToAddress (s : St) (v d : Addr) (a : Int) : St :=
            vd := upd2 s.vd v d (s.vd v d + a),
            eff := upd s.eff d (s.eff d + a) }
 
-/-- `MinusFromAddress`: `Amount.Minus` fails when the result is negative; the records written
-    before the failing one stay written (the caller decides whether a session discards them) -/
+/-- `MinusFromAddress` (7abde80): `Amount.Minus` fails when the result is negative; all three
+    amounts are checked before the first is written, so a failure leaves the state untouched -/
 def minusFromAddress (s : St) (v d : Addr) (a : Int) : St × Bool :=
-  if s.tot v - a < 0 then (s, false) else
-  let s1 := { s with tot := upd s.tot v (s.tot v - a) }
-  if s1.vd v d - a < 0 then (s1, false) else
-  let s2 := { s1 with vd := upd2 s1.vd v d (s1.vd v d - a) }
-  if s2.eff d - a < 0 then (s2, false) else
-  ({ s2 with eff := upd s2.eff d (s2.eff d - a) }, true)
+  if s.tot v - a < 0 ∨ s.vd v d - a < 0 ∨ s.eff d - a < 0 then (s, false) else
+  ({ s with tot := upd s.tot v (s.tot v - a),
+            vd := upd2 s.vd v d (s.vd v d - a),
+            eff := upd s.eff d (s.eff d - a) }, true)
 
 /-- total amount of delegator d in one maturing list -/
 def amtOf (d : Addr) : List (Addr × Int) → Int
@@ -256,10 +260,18 @@ def runUnstake (s : St) (v d : Addr) (a : Int) : St × Code :=
                  gSched := upd2 s2.gSched k d (s2.gSched k d + a),
                  gKeys := if k ∈ s2.gKeys then s2.gKeys else k :: s2.gKeys }, .ok)
 
+/-- `frozenOwner` of `runWithdraw` (df2e1ab, 92417eb): some enumerated validator record has d
+    as its stake address and the validator is frozen (point lookup, sees the block cache) -/
+def frozenOwner (s : St) (d : Addr) : Bool :=
+  s.iterVals.any fun v => match s.vals v with
+    | some r => decide (r.sa = d) && s.frozen v
+    | none => false
+
 /-- `runWithdraw`: the bounded amount is keyed by the delegator only; the validator named in the
-    transaction is used for the frozen guard and nothing else -/
+    transaction is used for the first frozen guard, the second one looks at the delegator -/
 def runWithdraw (s : St) (v d : Addr) (a : Int) : St × Code :=
   if s.frozen v then (s, .frozen) else
+  if frozenOwner s d then (s, .frozen) else
   if s.bnd d - a < 0 then (s, .insufficient) else
   ({ s with bnd := upd s.bnd d (s.bnd d - a),
             bal := upd s.bal d (s.bal d + coinOf a),
@@ -306,34 +318,47 @@ def txWithdraw (s : St) (v d : Addr) (a : Int) : St × Code :=
 
 /-! ## block hooks -/
 
-/-- `Setup` → `fetchPostponedUnstakes`: the unstake postponed at height h-1 reaches the record,
-    unless the purge rule refuses it (the error is logged and the entry never retried) -/
+/-- `Setup` → `fetchPostponedUnstakes`: the unstake postponed at height h-1 reaches the record
+    (`handleUnstake(…, purgeRule = false)`: the purge rule is not applied, acb5e5c) -/
 def beginBlock (s : St) (h : Int) : St :=
   { s with height := h,
            vals := fun v => match s.vals v, s.delayed (h - 1) v with
-             | some r, some p =>
-               if purgeBlocks s v h then some r
-               else some ⟨r.staking - p, powerOf (r.staking - p), r.sa⟩
+             | some r, some p => some ⟨r.staking - p, powerOf (r.staking - p), r.sa⟩
              | x, _ => x }
 
-/-- the GUILTY branch of `ExecuteAllegationTracker` for the accused validator v -/
+/-- the stake address a verdict charges (ebb3d1d): the one of the current record; the record of
+    the previous block only serves when there is no current record -/
+def slashAddr (s : St) (v : Addr) (r' : VRec) : Addr :=
+  match s.vals v with
+  | some r => r.sa
+  | none => r'.sa
+
+/-- the GUILTY branch of `ExecuteAllegationTracker` for the accused validator v: nothing without a
+    record of the previous block; otherwise the penalty is taken from the three records (all or
+    nothing) and, when that went through,
+    the unstake of the validator record is postponed to the next BeginBlock -/
 def slash (c : Cfg) (s : St) (v : Addr) : St :=
   let s0 := { s with frozen := upd s.frozen v true }
   match s.prev v with
   | none => s0
   | some r' =>
+    let sa := slashAddr s v r'
     let p := c.pen (s0.tot v)
-    let s1 := (minusFromAddress s0 v r'.sa p).1
-    { s1 with delayed := upd2 s1.delayed s.height v (some p),
+    let m := minusFromAddress s0 v sa p
+    let s1 := m.1
+    { s1 with delayed := if m.2 then upd2 s1.delayed s.height v (some p) else s1.delayed,
               req := upd s1.req v false,
-              gPenal := upd s1.gPenal r'.sa (s1.gPenal r'.sa + (s.eff r'.sa - s1.eff r'.sa)) }
+              gPenal := upd s1.gPenal sa (s1.gPenal sa + (s.eff sa - s1.eff sa)) }
 
-/-- the queue loop of `GetEndBlockUpdate`: "delete validator who's power is 0" — decided on the
-    record *of the previous version*, applied to the current state -/
-def deleteZeroPower (s : St) : St :=
-  { s with vals := fun v => match s.prev v with
-             | some r' => if r'.power ≤ 0 then none else s.vals v
-             | none => s.vals v }
+/-- the queue loop of `GetEndBlockUpdate`: "delete validator who's power is 0" (d8b47b0): the
+    record of the previous version *and* the current record have no power, and the validator is
+    `deletable`: not among the signers of the last commit and inactive for more than two blocks
+    (decided by the election and the status records, C10) -/
+def deleteZeroPower (s : St) (deletable : List Addr) : St :=
+  { s with vals := fun v => match s.prev v, s.vals v with
+             | some r', some r =>
+               if r'.power ≤ 0 ∧ r.power ≤ 0 ∧ v ∈ deletable then none else some r
+             | _, x => x }
 
 /-- `SetLastPurgeHeight` for the validators the election drops (decided by the election, C10) -/
 def writePurge (s : St) (purged : List Addr) : St :=
@@ -342,9 +367,10 @@ def writePurge (s : St) (purged : List Addr) : St :=
 /-- `GetEndBlockUpdate`, the part that touches stake records: zero-power records are deleted,
     purge heights written, `UpdateWithdrawReward(height)`, then the verdicts (`guilty`, decided
     by the tally, C19) in request order.  Nothing happens at height 1. -/
-def endBlock (c : Cfg) (s : St) (guilty purged : List Addr) : St :=
+def endBlock (c : Cfg) (s : St) (guilty purged deletable : List Addr) : St :=
   if s.height ≤ 1 then s else
-  guilty.foldl (slash c) (updateWithdrawReward (writePurge (deleteZeroPower s) purged) s.height)
+  guilty.foldl (slash c)
+    (updateWithdrawReward (writePurge (deleteZeroPower s deletable) purged) s.height)
 
 /-- `Commit`: the deliver state becomes the version the next block reads with `GetVersioned` -/
 def commit (s : St) : St := { s with prev := s.vals }
@@ -353,7 +379,8 @@ def commit (s : St) : St := { s with prev := s.vals }
 
 /-- what can happen between BeginBlock and EndBlock.  Besides the three staking transactions:
     the evidence subsystem freezing / releasing a validator and creating / closing an allegation
-    request, a change of the maturity option, and any other movement of a balance. -/
+    request, a change of the maturity option, any other movement of a balance, and the set of
+    validator records the store iteration enumerates. -/
 inductive Tx
   | stake (v d : Addr) (a : Int)
   | unstake (v d : Addr) (a : Int)
@@ -365,6 +392,7 @@ inductive Tx
   | closeRequest (v : Addr)
   | setMaturity (m : Int)
   | credit (d : Addr) (x : Int)
+  | setIterVals (l : List Addr)
   deriving DecidableEq, Repr
 
 def stepTx (s : St) : Tx → St × Code
@@ -378,6 +406,7 @@ def stepTx (s : St) : Tx → St × Code
   | .closeRequest v => ({ s with req := upd s.req v false }, .ok)
   | .setMaturity m => ({ s with maturity := m }, .ok)
   | .credit d x => ({ s with bal := upd s.bal d (s.bal d + x) }, .ok)
+  | .setIterVals l => ({ s with iterVals := l }, .ok)
 
 def runTxs (s : St) (txs : List Tx) : St := txs.foldl (fun s t => (stepTx s t).1) s
 
@@ -387,11 +416,13 @@ structure Block where
   guilty : List Addr
   /-- validators the election purges in this EndBlock -/
   purged : List Addr
+  /-- validators whose record may be deleted in this EndBlock once it has no power -/
+  deletable : List Addr
   deriving Repr
 
 /-- BeginBlock, the transactions, EndBlock, Commit of the next height -/
 def execBlock (c : Cfg) (s : St) (b : Block) : St :=
-  commit (endBlock c (runTxs (beginBlock s (s.height + 1)) b.txs) b.guilty b.purged)
+  commit (endBlock c (runTxs (beginBlock s (s.height + 1)) b.txs) b.guilty b.purged b.deletable)
 
 def run (c : Cfg) (s : St) (bs : List Block) : St := bs.foldl (execBlock c) s
 
